@@ -104,6 +104,9 @@ func c05Requests(c mcfg) []mevent {
 
 func c05Product(c mcfg, st c05State) Scenario {
 	name := fmt.Sprintf("product msize=%d dotu=%v auth=%v state=%s", c.Msize, c.Dotu, c.Auth, st.name)
+	if c.ErrKind != "" {
+		name += " auth-errors=" + c.ErrKind
+	}
 	return Scenario{Name: name, Run: func(rc *RunCtx) *Result {
 		res := &Result{Exhaustive: true}
 		sigSeen := map[string]bool{}
@@ -358,6 +361,15 @@ func c05Scenarios(tier string) []Scenario {
 			}
 		}
 	}
+	// implementations whose authentication callbacks refuse with other error values than *go9p.Error
+	for i, ek := range []string{"plain", "errno", "wrapped"} {
+		c := mcfg{Dotu: i%2 == 0, Auth: true, Msize: 256, ErrKind: ek}
+		for _, st := range c05States(c) {
+			if st.name == "absent" || st.name == "auth-fid" || st.name == "dir-unopened" {
+				out = append(out, c05Product(c, st))
+			}
+		}
+	}
 	out = append(out, c05ArgsStable(64, false), c05ArgsStable(64, true), c05ArgsStable(256, true))
 	P := 2
 	if tier == "thorough" {
@@ -375,7 +387,7 @@ func c05Scenarios(tier string) []Scenario {
 func init() {
 	register(&Property{ID: "C05", Level: "model_checking",
 		Technique: "reference-model conformance over the full (fid state x request) product, every pair executed on the real server; visibility clause by stateless model checking under the controlled scheduler",
-		Rule:      "fid states {absent, dir unopened/open, file unopened/open with modes 0,1,2,3,OWRITE|OTRUNC,OREAD|ORCLOSE,ORDWR|OTRUNC, created file/dir (also with the DMAUTH, DMEXCL, DMTMP, DMMOUNT, DMAPPEND perm bits), reached by in-place/partial/failed walks, after refused or failed open/create, auth fid} x requests {walk names x newfid, open 4 modes x 3 flag sets, create 8 perm classes x 4 modes, read/write with counts 0,1,L-1,L,L+1,2^31,2^32-24..2^32-1, stat/wstat/clunk/remove with implementation success/error, attach/auth with every afid kind and AuthCheck verdict} x dialect x AuthOps x msize (quick 64,256,8216; thorough also 48,1024,65560); three-valued oracle (must refuse / must forward / either); arguments of a request held by the implementation while 1..8*msize/11 further requests arrive one per segment; visibility pairs: all schedules with at most P preemptions. states = distinct (request kind, verdict, rule) classes exercised",
+		Rule:      "fid states {absent, dir unopened/open, file unopened/open with modes 0,1,2,3,OWRITE|OTRUNC,OREAD|ORCLOSE,ORDWR|OTRUNC, created file/dir (also with the DMAUTH, DMEXCL, DMTMP, DMMOUNT, DMAPPEND perm bits), reached by in-place/partial/failed walks, after refused or failed open/create, auth fid} x requests {walk names x newfid, open 4 modes x 3 flag sets, create 8 perm classes x 4 modes, read/write with counts 0,1,L-1,L,L+1,2^31,2^32-24..2^32-1, stat/wstat/clunk/remove with implementation success/error, attach/auth with every afid kind and AuthCheck verdict} x dialect x AuthOps (refusing with *go9p.Error, errors.New, syscall.Errno and wrapped errors) x msize (quick 64,256,8216; thorough also 48,1024,65560); three-valued oracle (must refuse / must forward / either); arguments of a request held by the implementation while 1..8*msize/11 further requests arrive one per segment; visibility pairs: all schedules with at most P preemptions. states = distinct (request kind, verdict, rule) classes exercised",
 		Assumptions: []string{"the reference model is a correct reading of the rules the property lists; corners it does not settle are accepted both ways", "product pairs run on the default schedule"},
 		Scenarios:   c05Scenarios, QuickS: 100, ThoroughS: 900})
 }
